@@ -190,22 +190,38 @@ Theorem C08_repaired_replays :
 Proof. exact repaired_replays. Qed.
 Print Assumptions C08_repaired_replays.
 
-(** ** DirectiveSet.max_level (Targets, EnvFilter): however the set was built - any sequence of [add]s, including
-    the replacement of an equal directive by one with a lower level - every directive in it is at most
-    [max_level], and one more [add] never lowers it. *)
-Theorem C08_directive_max_mono : forall (A : Type) (cmp : A -> A -> comparison) (lvl : A -> levelfilter) ds,
-  (forall d, In d (ds_dirs (ds_of cmp lvl ds)) -> frank (lvl d) <= frank (ds_max (ds_of cmp lvl ds))) /\
-  (forall d, frank (ds_max (ds_of cmp lvl ds)) <= frank (ds_max (ds_add cmp lvl (ds_of cmp lvl ds) d))) /\
-  (forall d, frank (lvl d) <= frank (ds_max (ds_add cmp lvl (ds_of cmp lvl ds) d))).
+(** ** DirectiveSet.max_level (Targets, EnvFilter).  However the set was built - any sequence of [add]s, including
+    the replacement of an equally specific directive by one with a lower or a higher level - [max_level] is
+    EXACTLY the most verbose level among the directives now in the set (since cc87356 a replacement recomputes it):
+    it bounds every directive (so the hints of Targets / EnvFilter are upper bounds), it is OFF for the empty set,
+    and otherwise some directive in the set has it (so the hint is also the tightest one). *)
+Theorem C08_directive_max_exact : forall (A : Type) (cmp : A -> A -> comparison) (lvl : A -> levelfilter) ds,
+  let s := ds_of cmp lvl ds in
+  (forall d, In d (ds_dirs s) -> frank (lvl d) <= frank (ds_max s)) /\
+  (ds_dirs s = [] -> ds_max s = OFF) /\
+  (ds_dirs s <> [] -> exists d, In d (ds_dirs s) /\ lvl d = ds_max s).
+Proof. exact directive_max_exact. Qed.
+Print Assumptions C08_directive_max_exact.
+
+(** one more [add]: the new directive is bounded, and an [add] that replaces nothing never lowers [max_level] *)
+Theorem C08_directive_max_mono : forall (A : Type) (cmp : A -> A -> comparison) (lvl : A -> levelfilter) ds d,
+  let s := ds_of cmp lvl ds in
+  frank (lvl d) <= frank (ds_max (ds_add cmp lvl s d)) /\
+  (ds_replaced cmp d (ds_dirs s) = false -> frank (ds_max s) <= frank (ds_max (ds_add cmp lvl s d))).
 Proof. exact directive_max_mono. Qed.
 Print Assumptions C08_directive_max_mono.
 
-Theorem C08_directive_max_mono_nonvacuous :
+(** "a=trace,ab=warn,a=error": the second `a` replaces the first and max_level drops from TRACE to WARN *)
+Theorem C08_directive_max_exact_nonvacuous :
   ds_dirs (ds_of cmp_sdir sd_level ex_dirs) =
-    [ {| sd_target := Some "a"%string; sd_fields := []; sd_level := Some ERROR |} ] /\
-  ds_max (ds_of cmp_sdir sd_level ex_dirs) = Some TRACE.
+    [ {| sd_target := Some "ab"%string; sd_fields := []; sd_level := Some WARN |};
+      {| sd_target := Some "a"%string; sd_fields := []; sd_level := Some ERROR |} ] /\
+  ds_max (ds_of cmp_sdir sd_level ex_dirs) = Some WARN /\
+  ds_max (ds_of cmp_sdir sd_level (firstn 2 ex_dirs)) = Some TRACE /\
+  ds_replaced cmp_sdir {| sd_target := Some "a"%string; sd_fields := []; sd_level := Some ERROR |}
+     (ds_dirs (ds_of cmp_sdir sd_level (firstn 2 ex_dirs))) = true.
 Proof. exact ex_directive_nonvacuous. Qed.
-Print Assumptions C08_directive_max_mono_nonvacuous.
+Print Assumptions C08_directive_max_exact_nonvacuous.
 
 (** ** The tie to the Rust source (coq/gen/Gen_summary.v is regenerated from /repo on every run by
     translators/summary_shapes.py): the summary-merging functions of the model ARE the functions of the source,
@@ -245,6 +261,6 @@ Theorem C08_source_shapes :
   gen_summary_unrecognised = [] /\ gen_inner_is_registry_from_inner_value = true /\
   gen_vec_interest_is_conjunction = true /\ gen_vec_enabled_is_all = true /\ gen_vec_hint_is_max_from_off = true /\
   gen_vec_markers = true /\ gen_option_none_summaries = true /\ gen_filtered_summaries = true /\
-  gen_env_hint = true /\ gen_directive_add_raises_max = true.
+  gen_env_hint = true /\ gen_directive_add_max_exact = true.
 Proof. exact (conj source_recognised (conj source_inner_is_registry source_flags)). Qed.
 Print Assumptions C08_source_shapes.
